@@ -87,7 +87,8 @@ package wallet
 // rolls everything back): exactly one walletdb.Update happens on every path.
 //@ func OpenWithRetry(db, pubPass, cbs, params, recoveryWindow, syncRetryInterval) (w, err)
 //@   property C19
-//@   ensures one_transaction: dbUpdates == old(dbUpdates) + 1
+//@   requires db: db != nil
+//@   ensures one_transaction: dbMgdCalls == old(dbMgdCalls) + 1 && dbMgdKind == 1
 //@   ensures failure_no_wallet: err != nil ==> w == nil
 
 // C07: the wallet's input source (the closure returned by makeInputSource)
